@@ -149,7 +149,10 @@ func runShard(s shardScript) shardResult {
 		}
 		return redisConnWrapper.MockRedisConn{Host: host, DoFunc: func(cmd string, args ...interface{}) (interface{}, error) {
 			if b == nbCmdErr {
-				return nil, errors.New("ERR injected command failure")
+				// error replies as a server sends them, the kind depends on node and attempt only
+				texts := []string{"ERR injected command failure", "LOADING Redis is loading the dataset in memory", "NOAUTH Authentication required.",
+					"BUSY Redis is busy running a script. You can only call SCRIPT KILL or SHUTDOWN NOSAVE.", "MASTERDOWN Link with MASTER is down and replica-serve-stale-data is set to 'no'."}
+				return nil, redigo.Error(texts[(len(host)+int(host[len(host)-1])+a)%len(texts)])
 			}
 			return []byte(infoFor(b)), nil
 		}}, nil
